@@ -289,10 +289,34 @@ func propC20(c *Ctx, r *Report) {
 			if k, ok := st.Val.(*ssa.Const); ok && k.Int64() == 0 {
 				return
 			}
-			okSrc := sliceHas(st.Val, func(v ssa.Value) bool {
+			fromTable := func(v ssa.Value) bool {
 				lk, ok := v.(*ssa.Lookup)
 				return ok && valuePath(lk.X) == "fat2.validPTickers"
-			})
+			}
+			okSrc := sliceHas(st.Val, fromTable)
+			if !okSrc {
+				// through a module function of the package every return of which is a table value or the Invalid constant
+				// (StringToTicker)
+				if call, ok := unwrapConv(st.Val).(*ssa.Call); ok {
+					if sc := call.Common().StaticCallee(); sc != nil && sc.Pkg != nil && sc.Pkg.Pkg.Name() == "fat2" && sc.Blocks != nil {
+						all := true
+						for _, rt := range returnsIn(blockSet(sc)) {
+							if len(rt.Results) != 1 {
+								all = false
+								continue
+							}
+							rv := rt.Results[0]
+							if k, ok := rv.(*ssa.Const); ok && k.Value != nil && k.Int64() == 0 {
+								continue
+							}
+							if !sliceHas(rv, fromTable) {
+								all = false
+							}
+						}
+						okSrc = all
+					}
+				}
+			}
 			if !okSrc {
 				bad = append(bad, "a value not taken from validPTickers is stored at "+c.ipos(ins))
 			}
